@@ -100,6 +100,9 @@ HNrbBad == Nrb(<<Rec(1, 8, 4, 4), Rec(9, 3, 0, 3), Rec(3, 10, 6, 4), Rec(4, 12, 
 HNrbNoEnd == Nrb(<<Rec(2, 19, 16, 3)>>)                     \* no end record: the trailing length is read as a record
 HIsbIfc == Isb(3, 3, <<>>)
 HIsbShort == Isb(0, 3, <<O(4, 4, 1)>>)
+HIsbTimeShort == Isb(0, 3, <<O(2, 4, 1)>>)
+HEpbDcShort == Epb(0, 3, 1, 1, <<O(4, 4, 1)>>)
+HEpbVdEmpty == Epb(0, 3, 1, 1, <<O(7, 0, 0)>>)
 MC_HeadsH == {WShbBare, HShbBadMagic, HShbShort, WIdbA}
 MC_HeadsOne == {WShbBare}
 MC_AlphaH1 == {WIdbA, HIdbTsresol255, HIdbTsresolEmpty, HIdbEooLen, HEpbIfc, HEpbCapLen, HEpbCapBlock, HEpbFlagsShort, HEpbLenMinus, HEpbLenPlus,
@@ -111,7 +114,7 @@ MC_AlphaHSmall == {WIdbA, HIdbTsresol255, HEpbIfc, HEpbCapLen, HEpbFlagsShort, H
 \* simulation beyond the exhaustive bounds: mostly valid blocks of every kind, both byte orders, a few corruptions
 MC_HeadsSim == {WShb, WShbBare, BShb}
 MC_AlphaSim == {WIdbA, WIdbB, WIdbC, SIdbOff, SIdbBin, SIdbMicro, WEpb1, WEpb2, WEpb3, WEpb4, WEpb5, SEpbHi, SEpbMax, SEpbLo, SPb, SSpb, WIsb, WDsb, WNrb,
-                SUnk, SIsb, BShb, WShbBare, VShb, HEpbLenPlus, HEpbTrail, HIdbNoEoo, HEpbCapLen, HNrbBad}
+                SUnk, SIsb, BShb, WShbBare, VShb, HEpbLenPlus, HEpbTrail, HIdbNoEoo, HEpbCapLen, HNrbBad, HIsbTimeShort, HEpbDcShort, HEpbVdEmpty}
 
 (* -------------------- the zero-copy buffer and the growing read ------------- *)
 GIdb0 == Idb(1, 0, <<Res9>>)
